@@ -123,6 +123,8 @@ class Gen:
     def step(self):
         r = self.rng
         k = r.random()
+        if k < 0.05:
+            return {"k": "req", "label": "cmd::test+arg", "body": run(":test " + r.choice(["vt_pass", "vt_pass", "vt_pass", "vt_loaded"]), self.fresh())}
         if k < 0.40:
             return self.command()
         if k < 0.50:
@@ -252,6 +254,13 @@ SCRIPTED = [
     ["verif_none()", ":replace fun() { 1 }", ":resume"], ["return vnosuch", ":resume", ":skip"],
     ["for vi in [1, 2] { let vk = vi vok.vnosuch(1) }", ":skip", ":skip", ":skip"],
     ["for vi in [1, 2] { vok(vi, 1) }", ":skip", ":resume", ":skip"], ["[vf0(), 1]", ":skip", ":skip"],
+    # repeated :test at the toplevel (each finished test frame hands its value to the toplevel value stack)
+    [":test vt_pass", ":test vt_pass"], [":test vt_pass", ":test vt_pass", ":test vt_pass", ":test vt_pass", "1 + 2"],
+    [":test vt_pass", "1 + 2", "let vafter = 3", ":test vt_pass", "vafter", ":test vt_pass", ":resume"],
+    [":test vt_pass", ":test vt_fail", ":abort", ":test vt_pass", ":test vt_pass", ":fvalues"],
+    [":test vt_fail", ":abort", ":test vt_pass", ":test vt_pass", ":test vt_throw", ":abort", ":test vt_pass", ":test vt_pass"],
+    ["test vtq { assert(2 == 2) }", ":test vtq", ":test vtq", ":test vtq"], [":abort", ":test vt_pass", ":abort", ":test vt_pass", ":test vt_pass"],
+    [":test vt_pass", ":skip", ":test vt_pass", ":replace 1", ":test vt_pass", ":test vt_pass"],
     ["while True { let vw = 1 throw(\"w\") }", ":skip", ":abort", "vw"], ["vf2(1)", ":namespace other.gdn", "vf2(1)", ":abort", "vg"],
 ]
 
